@@ -21,8 +21,20 @@ from sa.srcmodel import AnalysisError   # noqa: E402
 from sa import engine                   # noqa: E402
 
 
+class AnalysisTimeout(BaseException):
+    pass
+
+
+def _on_alarm(signum, frame):
+    raise AnalysisTimeout()
+
+
 def run_property(pid, tier, root):
+    import signal
     rep = Report(pid, tier, root)
+    # watchdog: symbolic evaluation of an unexpected construct must end in a verdict-free ANALYSIS-ERROR, never in a hang
+    signal.signal(signal.SIGALRM, _on_alarm)
+    signal.alarm(int(os.environ.get('VERIF_TIMEOUT', '600' if tier == 'quick' else '1800')))
     try:
         model = engine.repo_model(root)
         rep.analysed.update(model.inventory())
@@ -31,18 +43,15 @@ def run_property(pid, tier, root):
         mod = importlib.import_module(f'sa.rules.{pid.lower()}')
         del engine.PYERRORS[:]
         mod.check(rep, model, tier)
-        rep.rule('NO-PYERROR', 'no path evaluated by the rules above contains a Python-level error that the evaluator models exactly (NameError / UnboundLocalError for a name '
-                               'that is unbound on that path, AttributeError for a missing attribute of a constructed object, TypeError for **None or a duplicate keyword): '
-                               'such a call raises instead of producing the result the property talks about')
-        for kind, guard, where, entry in engine.PYERRORS:
-            from sa import terms as T_
-            rep.violation('NO-PYERROR', f'{kind}@{where}', where, expected='the path returns', found=f'{kind} raised when {entry} is evaluated' +
-                          ('' if guard == T_.TRUE else f' under {T_.brief(guard, 100)}'))
+        engine.report_pyerrors(rep)
+    except AnalysisTimeout:
+        rep.unresolved('ENGINE', 'timeout', '-', 'symbolic evaluation did not finish within the time budget (term blow-up on a construct outside the model)')
     except AnalysisError as e:
         rep.unresolved('ENGINE', 'analysis', '-', str(e))
     except Exception as e:      # an internal error is never a verdict
         tb = traceback.format_exc().strip().splitlines()
         rep.unresolved('ENGINE', 'internal-error', '-', f'{type(e).__name__}: {e} | ' + ' | '.join(tb[-6:]))
+    signal.alarm(0)
     if tier == 'thorough' and not os.environ.get('VERIF_NO_SELFTEST') and not os.environ.get('VERIF_NO_EVIDENCE'):
         try:
             rep.notes['sensitivity_selftest'] = selftest(pid, root)
